@@ -350,7 +350,10 @@ func (n *lazyNode) isNull() bool {
 	return bytes.Equal(n.compact(), rawJSONNull)
 }
 
-func (n *lazyNode) equal(o *lazyNode) bool {
+// equal compares two nodes, parsing them as needed. Objects parsed on the way
+// stay attached to their nodes, so they are given the options of the call
+// (they decide how the node is encoded later).
+func (n *lazyNode) equal(o *lazyNode, options *ApplyOptions) bool {
 	// null is represented both by a nil node (decoded from a document) and
 	// by a node holding the raw text "null" (supplied by a patch).
 	if n.isNull() || o.isNull() {
@@ -358,7 +361,9 @@ func (n *lazyNode) equal(o *lazyNode) bool {
 	}
 
 	if n.which == eRaw {
-		if !n.tryDoc() && !n.tryAry() {
+		if n.tryDoc() {
+			n.doc.opts = options
+		} else if !n.tryAry() {
 			if o.which != eRaw {
 				return false
 			}
@@ -392,6 +397,7 @@ func (n *lazyNode) equal(o *lazyNode) bool {
 			if !o.tryDoc() {
 				return false
 			}
+			o.doc.opts = options
 		}
 
 		if o.which != eDoc {
@@ -417,7 +423,7 @@ func (n *lazyNode) equal(o *lazyNode) bool {
 				continue
 			}
 
-			if !v.equal(ov) {
+			if !v.equal(ov, options) {
 				return false
 			}
 		}
@@ -434,7 +440,7 @@ func (n *lazyNode) equal(o *lazyNode) bool {
 	}
 
 	for idx, val := range n.ary.nodes {
-		if !val.equal(o.ary.nodes[idx]) {
+		if !val.equal(o.ary.nodes[idx], options) {
 			return false
 		}
 	}
@@ -1107,7 +1113,7 @@ func (p Patch) test(doc *container, op Operation, options *ApplyOptions) error {
 			self.which = eAry
 		}
 
-		if self.equal(op.value()) {
+		if self.equal(op.value(), options) {
 			return nil
 		}
 
@@ -1136,7 +1142,7 @@ func (p Patch) test(doc *container, op Operation, options *ApplyOptions) error {
 		return fmt.Errorf("testing value %s failed: %w", path, ErrTestFailed)
 	}
 
-	if val.equal(op.value()) {
+	if val.equal(op.value(), options) {
 		return nil
 	}
 
@@ -1213,7 +1219,7 @@ func Equal(a, b []byte) bool {
 	la := newLazyNode(newRawMessage(a))
 	lb := newLazyNode(newRawMessage(b))
 
-	return la.equal(lb)
+	return la.equal(lb, NewApplyOptions())
 }
 
 // DecodePatch decodes the passed JSON document as an RFC 6902 patch.
